@@ -181,6 +181,8 @@ def run(seed=0, rounds=400):
             zs = xs[:i] + [s0, numpy.eye(2, dtype=int)] + xs[i + 2:]
             zs[i + 1] = rng.randint(-2, 3, size=(2, 2))
             check('monoid-fold-splice', (fold(zs, 0, n) == fold(xs, 0, i) @ (zs[i] @ zs[i + 1]) @ fold(xs, i + 2, n)).all(), i)
+    from native import axioms_c13
+    axioms_c13.run(rng, check)
     print('AXIOMS ' + json.dumps(dict(rounds=rounds, failures=fails[:5])))
     return not fails
 
